@@ -46,6 +46,9 @@ CLAIMED = {
          "NoOptimize leaves the compiler's output untouched byte for byte.", "4 C20"),
  "C12": ("The real parser is run on every pair (quick) / triple (thorough) of the 18 binary operators, with prefix operators before and index/call after one operand, and its tree is compared structurally with an independent precedence-climbing parser parameterised only by the statement's binding order; "
          "minimal, redundant and full parenthesisations of a OP1 b OP2 c over 12 operators are executed on symbolic integers and must agree with each other and with the language definition of the implied grouping (solver, all operand values); ternary arms with and without redundant parentheses, nested ternaries rejected.", "4 C12"),
+ "C18": ("A bytecode verifier (decoder, control-flow graph, abstract stack-depth interpretation over all CFG paths whether or not an input can take them) is applied to the main body and every function body, both as compiled and as the machine will run them (public walkers, optimizer on and off), for every program of the control-flow and scope generators, "
+         "15 templates whose integer literals are symbolic in [0,70000] at AST level (the solver picks operand bytes that look like opcodes and values on either side of the inline limit) and scripts with 20..27 constants before a function whose last instruction refers to the newest constant. Programs with more than 64 KiB of code (16-bit operand overflow) are outside the bound.", "4 C18"),
+ "C19": ("Map-iteration order as a nondeterministic stub: every range over a Go map and every reflect MapKeys in lexer, parser, compiler, VM, objects and built-ins returns an arbitrary permutation (all permutations for maps of <= 4 entries, four representative orders above; one order per map object and size). 14 scripts (hash literals with alike-printing and duplicate keys, keys(), foreach, string()/print of nested hashes, three functions, map-typed host objects) are prepared and run twice under insertion order and again under arbitrary orders: constants, main and function code, results, host calls and output must be identical. Counterexamples are replayed natively by repetition (up to 300 tries).", "4 C19"),
 }
 
 TECH = "bounded symbolic execution of the repository's go/ssa (own SSA interpreter fork) with SMT (z3/cvc5) deciding each path assertion; native replay of models"
